@@ -1234,7 +1234,17 @@ def assemble(template_path, canary=False):
     tag_regions = []
     # two passes: functions first into sub-buffers so hoisted items can be emitted anywhere
     bufs = []
+    mod_stack = []   # (name, depth at which the module was opened)
+    depth = 0
     for node in nodes:
+        if node[0] == "text":
+            code = mask_source(node[2]) if ('"' in node[2] or "/" in node[2] or "'" in node[2]) else node[2]
+            mm = re.match(r"\s*(?:pub(?:\([a-z]+\))?\s+)?mod\s+(\w+)\s*\{", code)
+            if mm:
+                mod_stack.append((mm.group(1), depth))
+            depth += code.count("{") - code.count("}")
+            while mod_stack and depth <= mod_stack[-1][1]:
+                mod_stack.pop()
         sub = Out()
         sub.hoisted = out.hoisted
         sub.clauses = out.clauses
@@ -1259,6 +1269,7 @@ def assemble(template_path, canary=False):
         if node[0] == "fn":
             fl = FnLines(sub.lines)
             fl.fn = out.fns[-1]
+            fl.fn["module"] = "::".join(m for m, _ in mod_stack)
             bufs.append(("lines", fl))
         else:
             bufs.append(("lines", sub.lines))
